@@ -617,5 +617,30 @@ func TestVerifC04(t *testing.T) {
 			run.Sample(map[string]interface{}{"ops": len(s.ops), "address_spaces": len(s.spaces), "first_ops": first})
 		}
 	})
+	// "Exactly the requested permission bits in the hardware entry": every check above compares with the package's own
+	// Flag constants, so the constants themselves are compared once with the bits the amd64 page-table entry format gives
+	// them (a fact about the hardware, written down here as numbers, not taken from the package).
+	run.OneCase(vlib.FixedBase+1, func(c *vlib.Case) {
+		c.Begin(map[string]interface{}{"fixed": "flag constants against the amd64 entry format"})
+		arch := []struct {
+			name string
+			got  PageTableEntryFlag
+			bit  uint
+		}{{"Present", FlagPresent, 0}, {"RW", FlagRW, 1}, {"UserAccessible", FlagUserAccessible, 2}, {"WriteThroughCaching", FlagWriteThroughCaching, 3},
+			{"DoNotCache", FlagDoNotCache, 4}, {"Accessed", FlagAccessed, 5}, {"Dirty", FlagDirty, 6}, {"HugePage", FlagHugePage, 7},
+			{"Global", FlagGlobal, 8}, {"NoExecute", FlagNoExecute, 63}}
+		for _, a := range arch {
+			if uint64(a.got) != uint64(1)<<a.bit {
+				c.Violationf("flag-constant-not-architectural", "Flag%s = %#x, the amd64 page-table entry format puts it at bit %d", a.name, uint64(a.got), a.bit)
+			}
+		}
+		// copy-on-write is a software flag: it has to sit in a bit the hardware ignores (9-11, 52-62)
+		cow := uint64(FlagCopyOnWrite)
+		ignored := uint64(0x7)<<9 | uint64(0x7ff)<<52
+		if cow == 0 || cow&(cow-1) != 0 || cow&ignored == 0 {
+			c.Violationf("flag-constant-not-architectural", "FlagCopyOnWrite = %#x is not a single bit among those the hardware ignores (9-11, 52-62)", cow)
+		}
+		run.Count("flag_constants_compared_with_the_entry_format", int64(len(arch)+1))
+	})
 	var _ *kernel.Error
 }
